@@ -129,7 +129,7 @@ class Machine:
         if self._fired() != before:
             self.stats["fault_fired_function_raise"] += self._fired() - before
         self.events.append([kind, ev] if actor is None else [actor, kind, ev])
-        if kind not in ("new_doc", "new_env"):
+        if kind not in ("new_doc", "new_env", "mutate_doc"):
             self.check_docs()
 
     # -- creation ---------------------------------------------------------
@@ -152,6 +152,38 @@ class Machine:
             gspec = spec
         self.docs[op["id"]] = {"spec": gspec, "obj": obj, "snap": D.snapshot(obj)}
         return "ok"
+
+    def op_mutate_doc(self, op: Dict[str, Any]) -> Any:
+        """The CALLER changes a document in place between two operations (allowed:
+        the next application must see the data as it is now)."""
+        d = self.docs.get(op["doc"])
+        if d is None or "json" not in d["spec"]:
+            return "skip"
+        try:
+            target = D.get(d["obj"], tuple(op["path"]))
+            act = op["action"]
+            if act == "set" and isinstance(target, dict):
+                target[op["key"]] = copy.deepcopy(op["value"])
+            elif act == "del" and isinstance(target, dict) and op["key"] in target:
+                del target[op["key"]]
+            elif act == "append" and isinstance(target, list):
+                target.append(copy.deepcopy(op["value"]))
+            elif act == "pop" and isinstance(target, list) and target:
+                target.pop()
+            elif act == "set" and isinstance(target, list) and isinstance(op["key"], int) and -len(target) <= op["key"] < len(target):
+                target[op["key"]] = copy.deepcopy(op["value"])
+            else:
+                return "skip"
+        except (KeyError, IndexError, TypeError):
+            return "skip"
+        d["spec"] = {"json": copy.deepcopy(d["obj"])}
+        d["snap"] = D.snapshot(d["obj"])
+        # what a half-consumed iterator over this document yields from now on is not specified
+        for rec in self.iters.values():
+            if rec["doc"] == op["doc"] and rec["state"] == "live":
+                rec["faulted"] = True
+        self.stats["docs_mutated_by_caller"] += 1
+        return [op["doc"], op["action"]]
 
     def op_new_env(self, op: Dict[str, Any]) -> Any:
         spec = copy.deepcopy(op["spec"])
